@@ -1097,7 +1097,7 @@ def world_strategy(tier: str, layouts: Optional[list[str]] = None, rich: bool = 
                           st.sampled_from([['TEXINFO', 'TEXDATA'], ['TEXINFO'], ['SURFEDGES', 'EDGES'], ['SURFEDGES'],
                                            ['ENTITIES', 'MODELS'], ['ENTITIES'], ['LEAFS', 'LEAFFACES', 'LEAFBRUSHES'],
                                            ['BRUSHES', 'BRUSHSIDES'], ['FACES', 'ORIGINALFACES', 'PLANES']])),
-        'lzma_all': st.sampled_from([False] * 11 + [True]),
+        'lzma_all': st.sampled_from([False] * 17 + [True]),
         'messy': st.booleans(),
         'gl_lzma': st.one_of(st.just([]), st.lists(st.sampled_from(['sprp', 'dprp']), max_size=2, unique=True)),
         'gl_dummy': st.booleans(),
